@@ -34,10 +34,18 @@ def handleSv (stream : String) (inp impl : List String) : String :=
         let agree := agrees l v && ctxOwn l && reenc
         -- the property: the handler's argument is the value sent, its context is the request's
         let deltaOk := l.delta == "na" || l.delta == "1"
-        let specOk := l.status == 200 && l.echoV == l.sent && l.echoM == l.method &&
+        -- TLS stream: the value sent is "the handler saw my own socket address, with my nonce";
+        -- the address is what the client's socket reports as its local end
+        let sent := if e.kind == "tls" then "s" ++ hexB (b s!"127.0.0.1:{l.port}|{l.nonce}") else l.sent
+        let specOk := l.status == 200 && l.echoV == sent && l.port != "0" && l.echoM == l.method &&
           l.echoU == hexB l.target && l.echoH == hexB (b l.nonce) && l.echoP == l.port && deltaOk
-        let cls := s!"{stream}-{l.ep}-{framingClass l.framing l.framingRaw}" ++
-          (if l.followup == "r0" || l.followup == "na" then "" else "-resent")
+        let cls :=
+          if e.kind == "tls" then
+            match l.extra.splitOn "." with
+            | role :: fin :: _ => s!"tl-{role}-{if role == "keepalive" || role == "threads" then "any" else fin}"
+            | _ => "tl-other"
+          else s!"{stream}-{l.ep}-{framingClass l.framing l.framingRaw}" ++
+            (if l.followup == "r0" || l.followup == "na" then "" else "-resent")
         out l.id agree (b2s specOk) cls "-" (verdictStr v)
 
 def handle (line : String) : String :=
@@ -97,6 +105,7 @@ def handle (line : String) : String :=
   | "sv" :: _ => handleSv "sv" inp impl
   | "pl" :: _ => handleSv "pl" inp impl
   | "cc" :: _ => handleSv "cc" inp impl
+  | "tl" :: _ => handleSv "tl" inp impl
   | _ => bad "?" "unknown-stream"
 
 end Dropshot.DriverC09
